@@ -7,6 +7,7 @@ import (
 	"fmt"
 	"io"
 	"io/ioutil"
+	"math"
 	"net/http"
 	"path"
 	"strconv"
@@ -593,7 +594,12 @@ func contextFromHeaders(parent context.Context, h http.Header) (context.Context,
 				unit = time.Nanosecond
 			}
 			if unit != 0 {
-				ctx, cancel = context.WithTimeout(ctx, time.Duration(timeoutVal)*unit)
+				timeout := time.Duration(timeoutVal) * unit
+				if timeoutVal > math.MaxInt64/int64(unit) {
+					// saturate instead of wrapping around to a negative duration
+					timeout = math.MaxInt64
+				}
+				ctx, cancel = context.WithTimeout(ctx, timeout)
 			}
 		}
 	}
